@@ -3,20 +3,24 @@ import Driver.Algo
 import Driver.Tok
 import Fzf.Model.Filter
 import Fzf.Model.Matcher
+import Fzf.Model.ChunkHeap
 namespace Driver.Matcher
 open Fzf Fzf.Algo Driver
 
-def results (ctx : Algo.Ctx) (lines : List Str) (query : Str) (sort tac : Bool) : List Nat :=
+def resultsOpts (ctx : Algo.Ctx) (fuzzy : Bool) (lines : List Str) (query : Str) (sort tac : Bool) : List Nat :=
   let cfg : Cfg := { U := ctx.unicode, sch := schemeDefault, norm := ctx.norm }
   let fo : Fzf.Filter.Opts := {
-    cfg, criteria := Fzf.Filter.schemeCriteria "default", fuzzy := true, v2 := true, extended := true,
+    cfg, criteria := Fzf.Filter.schemeCriteria "default", fuzzy := fuzzy, v2 := true, extended := true,
     caseMode := .smart, normalize := true, sort := sort, tac := tac, nth := none, withNth := none,
     delim := .awk, tail := 0, headerLines := 0, isSpace := Tok.isSpace }
   let q := Utf8.toRunes query
-  let pat := Fzf.Pattern.buildPattern cfg true true true .smart true true true q
+  let pat := Fzf.Pattern.buildPattern cfg fuzzy true true .smart true true true q
   let items := Fzf.Filter.buildItems fo lines
   if pat.isEmpty then (if tac then items.reverse else items).map (·.index)
   else ((Fzf.Filter.runIdx fo Generated.slab16Size q lines).getD []).map (·.1)
+
+def results (ctx : Algo.Ctx) (lines : List Str) (query : Str) (sort tac : Bool) : List Nat :=
+  resultsOpts ctx true lines query sort tac
 
 def run (ctx : Algo.Ctx) (op : String) (args impl : List String) : Outcome :=
   match op, args with
@@ -70,11 +74,82 @@ def run (ctx : Algo.Ctx) (op : String) (args impl : List String) : Outcome :=
     { model,
       spec := match badFinal with
         | ((r, _), _) :: _ => specFail s!"[C08,C04] after input had ended a request (query {showNatList (queryOf r)}, {r.count} items) was answered with something other than a fresh filter of the loaded input"
-        | [] => if implL.length != rs.length then specFail "[C08] a request was never answered" else specOk,
+        | [] =>
+          if implL.length != rs.length then specFail "[C08] a request was never answered"
+          else match (List.zip (List.zip (rs.map (·.1)) implL) fresh).find? fun ((_, got), want) => got != want with
+            | some ((r, _), _) => specFail s!"[C13] while input was arriving a request (query {showNatList (queryOf r)}, {r.count} items) was answered with something other than the filter of the items present when it was made"
+            | none => specOk,
       tags := ["hist", "nt"] ++ (if stale then ["stale-transient"] else []) ++
         (if rs.any (fun x => x.1.rev == 1) then ["reload"] else []) ++
         (if (rs.map (·.1.sort)).eraseDups.length > 1 then ["sort-toggle"] else []) ++
         (if rs.any (fun x => x.2.contains 9) then ["tab-query"] else []) }
+  | "histo", [linesA, linesB, reqs, tac, fuzzy, tail] =>
+    -- the same with the matching mode and --tail: the chunk-heap model supplies, per request, the
+    -- items of the snapshot and whether Snapshot dropped items (which bumps the minor revision)
+    let sets := [parseStrList linesA, parseStrList linesB]
+    let raw := (reqs.splitOn ";").map (·.splitOn "~")
+    let tl := tail.toNat!
+    let cz := Generated.chunkSize
+    let pstr (q : String) : Str := Utf8.fromRunes (Fzf.Pattern.trimQueryExtended (Utf8.toRunes (parseNatList q)))
+    let pats := (raw.map fun f => pstr (f.getD 0 "-")).eraseDups
+    -- (current set, pushed so far, heap, major, minor) threaded through the requests
+    let stepReq (acc : (Nat × Nat × ChunkHeap.CL × Nat × Nat) × List (Fzf.Matcher.SReq × Str × List Int × Bool × Nat))
+        (f : List String) :=
+      let ((curSet, pushed, cl, major, minor), out) := acc
+      let set := (f.getD 1 "0").toNat!
+      let upto := (f.getD 2 "0").toNat!
+      let isNew := out.isEmpty || set != curSet
+      let major := if !out.isEmpty && set != curSet then major + 1 else major
+      let minor := if !out.isEmpty && set != curSet then 0 else minor
+      let (pushed, cl) := if isNew then (0, (⟨[], []⟩ : ChunkHeap.CL)) else (pushed, cl)
+      let target := min upto ((sets.getD set []).length)
+      let cl := ((List.range (target - pushed)).map (· + pushed)).foldl (fun c (k : Nat) => ChunkHeap.push cz c (Int.ofNat k)) cl
+      let pushed := max pushed target
+      let ch := ChunkHeap.changed tl cl
+      let r := ChunkHeap.snapshot tl cl
+      let items := ChunkHeap.contents r.1 r.2
+      let minor := if ch then minor + 1 else minor
+      let k := out.length
+      let sr : Fzf.Matcher.SReq :=
+        { pat := pats.idxOf (pstr (f.getD 0 "-")), snap := k, count := items.length,
+          final := f.getD 3 "0" == "1", sort := f.getD 4 "1" == "1", rev := major * 1000000 + minor }
+      ((set, pushed, r.1, major, minor), out ++ [(sr, parseNatList (f.getD 0 "-"), items, ch, minor)])
+    let recs := (raw.foldl stepReq ((0, 0, ⟨[], []⟩, 0, 0), [])).2
+    let setOf (k : Nat) : Nat := ((raw.getD k []).getD 1 "0").toNat!
+    let scan (r : Fzf.Matcher.SReq) : List Nat :=
+      match recs[r.snap]? with
+      | some (_, q, items, _, _) =>
+        let first := (items.headD 0).toNat
+        let ls := ((sets.getD (setOf r.snap) []).drop first).take items.length
+        (resultsOpts ctx (fuzzy == "1") ls q r.sort (tac == "1")).map (· + first)
+      | none => []
+    let published := Fzf.Matcher.serveAll scan (fun l => l.length < Generated.mergerCacheMax) { sort := true, rev := 0 } (recs.map (·.1))
+    let showRec (p : List Nat) (x : Fzf.Matcher.SReq × Str × List Int × Bool × Nat) : String :=
+      let (_, _, items, ch, minor) := x
+      s!"{showNatList p}~{(items.headD 0).toNat}.{items.length}.1~{if ch then 1 else 0}~{minor}"
+    let model := ";".intercalate ((List.zip published recs).map fun (p, x) => showRec p x)
+    let fresh := recs.map fun x => scan x.1
+    let implR := ((" ".intercalate impl).splitOn ";").map (·.splitOn "~")
+    -- spec: every request is answered with the filter of exactly the items of its snapshot; the snapshot
+    -- holds the last `tail` items pushed so far; `changed` says whether items were dropped
+    let bad := (List.zip (List.zip recs implR) fresh).findSome? fun ((x, ir), want) =>
+      let (sr, q, items, ch, _) := x
+      match ir with
+      | [idx, shape, chS, _] =>
+        let wantShape := s!"{(items.headD 0).toNat}.{items.length}.1"
+        if shape != wantShape then some s!"[C13,C06] a snapshot holds items {shape} (first.count.contiguous) but the last {tl} of the items pushed so far are {wantShape}"
+        else if chS != (if ch then "1" else "0") then some s!"[C13] Snapshot reported changed={chS} although it {if ch then "dropped" else "dropped no"} items"
+        else if parseNatList idx != want then
+          some s!"{if sr.final then "[C08,C13]" else "[C13]"} a request (query {showNatList q}, {items.length} items from {(items.headD 0).toNat}) was answered with something other than the filter of the items of its snapshot"
+        else none
+      | _ => some "[C13] unparsable answer"
+    { model,
+      spec := match bad with
+        | some b => specFail b
+        | none => if implR.length != recs.length then specFail "[C08] a request was never answered" else specOk,
+      tags := ["histo", "nt"] ++ (if tl > 0 then ["tail"] else []) ++ (if fuzzy != "1" then ["exact"] else []) ++
+        (if recs.any (fun x => x.2.2.2.1) then ["trimmed"] else []) ++
+        (if recs.any (fun x => x.1.rev ≥ 1000000) then ["reload"] else []) }
   | "conv", [exact, sort, tac, nth, q, excluded, lines, _setup] =>
     -- the interactive session at quiescence against a fresh filter of the loaded input
     let cfg : Cfg := { U := ctx.unicode, sch := schemeDefault, norm := ctx.norm }
